@@ -1,6 +1,8 @@
 package core
 
 import (
+	"crypto/sha256"
+	"encoding/hex"
 	"fmt"
 	"regexp"
 	"runtime"
@@ -168,3 +170,9 @@ func Hangs() int { return int(atomic.LoadInt32(&hangCount)) }
 
 // NoteHang records a leaked hung case
 func NoteHang() { atomic.AddInt32(&hangCount, 1) }
+
+// Sha256Hex returns the hex SHA-256 of b
+func Sha256Hex(b []byte) string {
+	h := sha256.Sum256(b)
+	return hex.EncodeToString(h[:])
+}
